@@ -9,6 +9,8 @@
   `parse_text_lazy_error_in_range`   every error the lazy pipeline reports is within the text, except the lexer's L6 on an
                                `OpenEscape` text — and there only if the parser gets as far as the open string
   `lazy_prefix_never_ok`       the parser never succeeds on the tokens before a lexical error (a success consumes `<EOF>`)
+  `ParseFuelSufficientStatement`   (NOT proved, kept visible) the parser model never reports its own fuel exhaustion;
+                               `parse_fuel_sufficient_partial` is the proved part
   `lazy_differs`               the two pipelines do differ on rejected texts: `} "\` (eager: NonTerminatedString at 5, one
                                past the end; lazy: the `}` at 0)
 -/
@@ -226,6 +228,31 @@ theorem lazy_prefix_never_ok (fl : Flags) (s : Text) (toks : List Tok) (le : Lex
   rcases List.mem_cons.1 ht with rfl | ht
   · simp [sofTok]
   · exact lexLoopP_no_eof _ _ _ le h2 t ht
+
+/-! ### what is NOT proved about the parser model: its fuel (audit F7b)
+
+The loops and recursions of the token-level parser model take fuel (`runAll`: token count + 1) and end in `fail "fuel"`, an
+ordinary `SynErr`.  For the LEXER the corresponding branch is proved unreachable (`lex_fuel_sufficient`).  For the PARSER:
+  * on ACCEPTED token lists the fuel suffices — `parse_complete_document` returns the tree, for every well-formed derivation;
+  * the VERDICT never depends on it — `parseDocument_accepts_iff` is an iff with the grammar;
+  * every position statement (`parse_error_in_range`, `parse_text_lazy_error_in_range`) holds for the fuel error as for any
+    other (it is reported at the next token);
+  * that a REJECTION is never the fuel artefact is the statement below. It is NOT proved (it needs a progress lemma for every
+    parse function: each loop iteration consumes a token). It is exercised: the correspondence compares position AND class of
+    every parser rejection with the real parser (`corr:syntax-error-differs`) over the bounded-exhaustive token strings, and
+    reports `corr:model-fuel-exhausted` if the model's message is ever "fuel"
+    (evidence: `parser_model_rejections_without_fuel_artefact`). -/
+
+/-- THE FULL STATEMENT (not proved): the parser model never runs out of fuel -/
+def ParseFuelSufficientStatement : Prop :=
+  ∀ (fl : Flags) (toks : List Tok) (e : Parse.SynErr),
+    (parseDocument fl toks = .error e ∨ parseValue fl toks = .error e ∨ parseType fl toks = .error e) → e.msg ≠ "fuel"
+
+/-- the proved part: no ACCEPTED token list is affected (a derivation of a well-formed tree is parsed, whatever its size) -/
+theorem parse_fuel_sufficient_partial (fl : Flags) (toks : List Tok) (d : Document)
+    (w : Spec.wfDocument fl d = true) (m : Matches fl [Spec.documentV d] toks) (e : Parse.SynErr) :
+    parseDocument fl toks ≠ .error e := by
+  rw [parse_complete_document fl toks d w m]; intro h; cases h
 
 /-- the two pipelines DO differ on rejected texts: `} "\` — the eager composition reports the lexer's NonTerminatedString one
     past the end (position 5 of a text of length 4), the lazy parser the `}` at position 0 -/
